@@ -154,10 +154,64 @@ class Compiler:
         self.varargs = {}
         self.handling = []
         self.lists = set()
+        self.views = {}         # name -> ('qelem', queue, index) | ('qview', queue, offset): names bound to (parts of) the content of a queue
+        self.pyconst = {}       # names with a concrete Python value in this instantiation (e.g. backend)
 
     # ------------------------------------------------------------------ expressions (pure)
     def name(self, n):
         return self.subst.get(n, n)
+
+    @staticmethod
+    def truth(v):
+        return v if z3.is_bool(v) else v != 0
+
+    def view_of(self, e):
+        """(queue, offset) if e denotes the content of a queue: q.queue, list(q.queue), tuple(q.queue), a name bound to a tail of it"""
+        if isinstance(e, ast.Call) and isinstance(e.func, ast.Name) and e.func.id in ('list', 'tuple') and len(e.args) == 1 and not e.keywords:
+            return self.view_of(e.args[0])
+        if isinstance(e, ast.Attribute) and e.attr == 'queue' and isinstance(e.value, ast.Name) and self.name(e.value.id) in self.p.queues:
+            return self.name(e.value.id), 0
+        if isinstance(e, ast.Name) and e.id in self.views and self.views[e.id][0] == 'qview':
+            return self.views[e.id][1], self.views[e.id][2]
+        return None
+
+    def ev_pure_adapter(self, e, S):
+        """a nested helper that only computes a value from observers: `return <expr>`, optionally after unpacking the content of a queue and
+        inside `try: ... except AttributeError: return <expr>` (the handler is what a pool without Future objects gets)"""
+        fd = self.adapters[e.func.id]
+        params = [a.arg for a in fd.args.args]
+        if fd.args.vararg or fd.args.kwarg or fd.args.kwonlyargs or fd.args.defaults or len(params) != len(e.args) \
+                or any(not isinstance(a, ast.Name) for a in e.args):
+            raise Unsupported('expression ' + ast.unparse(e)[:60])
+        body = [b for b in fd.body if not (isinstance(b, ast.Expr) and isinstance(b.value, ast.Constant))]
+        if len(body) == 1 and isinstance(body[0], ast.Try) and not body[0].finalbody and not body[0].orelse and len(body[0].handlers) == 1 \
+                and ast.unparse(body[0].handlers[0].type) == 'AttributeError':
+            body = body[0].body if self.pool_kind in ('thread', 'process') else body[0].handlers[0].body
+            body = [b for b in body if not (isinstance(b, ast.Expr) and isinstance(b.value, ast.Constant))]
+        old_subst, old_views = self.subst, dict(self.views)
+        self.subst = dict(old_subst)
+        self.subst.update({prm: self.name(a.id) for prm, a in zip(params, e.args)})
+        try:
+            for st in body[:-1]:
+                # first, *rest = q.queue
+                if isinstance(st, ast.Assign) and len(st.targets) == 1 and isinstance(st.targets[0], (ast.Tuple, ast.List)) and self.view_of(st.value) is not None:
+                    q, off = self.view_of(st.value)
+                    j = off
+                    for t in st.targets[0].elts:
+                        if isinstance(t, ast.Name):
+                            self.views[t.id] = ('qelem', q, j)
+                            j += 1
+                        elif isinstance(t, ast.Starred) and isinstance(t.value, ast.Name) and t is st.targets[0].elts[-1]:
+                            self.views[t.value.id] = ('qview', q, j)
+                        else:
+                            raise Unsupported(ast.unparse(st)[:60])
+                    continue
+                raise Unsupported('statement in a pure helper: ' + ast.unparse(st)[:60])
+            if not body or not isinstance(body[-1], ast.Return) or body[-1].value is None:
+                raise Unsupported('helper used in an expression does not end with `return <expr>`: ' + e.func.id)
+            return self.ev(body[-1].value, S)
+        finally:
+            self.subst, self.views = old_subst, old_views
 
     def is_bool_expr(self, e):
         """does the pure expression e denote a truth value (decides the sort of the variable it is assigned to)"""
@@ -201,6 +255,18 @@ class Compiler:
             if isinstance(e.value, int):
                 return IV(e.value)
             raise Unsupported(ast.dump(e))
+        if isinstance(e, ast.Name) and e.id in self.views:
+            kind, q, j = self.views[e.id]
+            if kind == 'qelem':
+                return S[f'{q}[{j}]']
+            raise Unsupported('queue view used as a value: ' + e.id)
+        if isinstance(e, ast.Compare) and len(e.ops) == 1 and isinstance(e.left, ast.Name) and e.left.id in self.pyconst \
+                and isinstance(e.comparators[0], ast.Constant):
+            a, b, op = self.pyconst[e.left.id], e.comparators[0].value, e.ops[0]
+            r = {ast.Is: a is b, ast.IsNot: a is not b, ast.Eq: a == b and type(a) is type(b), ast.NotEq: not (a == b and type(a) is type(b))}.get(type(op))
+            if r is None:
+                raise Unsupported('comparison of ' + e.left.id)
+            return z3.BoolVal(bool(r))
         if isinstance(e, ast.Name):
             n = self.name(e.id)
             if n in self.p.vars:
@@ -249,6 +315,77 @@ class Compiler:
             for v in vals[1:]:
                 out = z3.If(v > out, v, out) if e.func.id == 'max' else z3.If(v < out, v, out)
             return out
+        if isinstance(e, ast.Call) and isinstance(e.func, ast.IfExp):
+            # (x.done if hasattr(x, 'done') else x.ready)(): the test is decided by the pool kind
+            t = z3.simplify(self.ev(e.func.test, S))
+            if z3.is_true(t) or z3.is_false(t):
+                return self.ev(ast.copy_location(ast.Call(func=e.func.body if z3.is_true(t) else e.func.orelse, args=e.args, keywords=e.keywords), e), S)
+            raise Unsupported('call of a conditional expression ' + ast.unparse(e)[:60])
+        if isinstance(e, ast.Call) and isinstance(e.func, ast.Name) and e.func.id in ('isinstance', 'hasattr') and len(e.args) == 2 and self.pool_kind is not None:
+            # a job object of this instantiation: concurrent.futures.Future for the executor pools, AsyncResult for multiprocessing / pathos
+            fut = self.pool_kind in ('thread', 'process')
+            what = ast.unparse(e.args[1])
+            if e.func.id == 'isinstance' and what in ('concurrent.futures.Future', 'Future', 'futures.Future'):
+                return z3.BoolVal(fut)
+            if e.func.id == 'hasattr' and isinstance(e.args[1], ast.Constant):
+                a = e.args[1].value
+                if a in ('done', 'cancelled', 'running', 'exception', 'result', 'cancel', 'add_done_callback'):
+                    return z3.BoolVal(fut)
+                if a in ('ready', 'successful', 'get', 'wait'):
+                    return z3.BoolVal(not fut)
+            raise Unsupported(ast.unparse(e)[:60])
+        if isinstance(e, ast.Call) and isinstance(e.func, ast.Attribute) and isinstance(e.func.value, ast.Name) and self.pool_kind is not None \
+                and e.func.attr in ('done', 'ready', 'cancelled', 'running', 'exception') and not e.keywords \
+                and self.name(e.func.value.id) not in self.p.queues and self.name(e.func.value.id) not in self.p.threads \
+                and self.name(e.func.value.id) not in self.p.sems and self.name(e.func.value.id) not in self.p.events:
+            # pure observers of a job (the variable holds the task id)
+            st = self.st_get(S, self.ev(e.func.value, S))
+            a = e.func.attr
+            if a == 'done':
+                return z3.Or(st == DONE_OK, st == DONE_EXC, st == CANCELLED)
+            if a == 'ready':
+                return z3.Or(st == DONE_OK, st == DONE_EXC)
+            if a == 'cancelled':
+                return st == CANCELLED
+            if a == 'running':
+                return st == RUNNING
+            # exception(): the exception of a finished job (kind) or None; asking an unfinished job would block - the callers translated so far
+            # ask only behind done()
+            return z3.If(st == DONE_EXC, S['$taskfail_kind'], IV(NONE))
+        if isinstance(e, ast.Call) and isinstance(e.func, ast.Name) and e.func.id in ('sum', 'any', 'all') and len(e.args) == 1 \
+                and isinstance(e.args[0], (ast.GeneratorExp, ast.ListComp)) and len(e.args[0].generators) == 1:
+            # sum / any / all over the content of a queue (or its tail): unrolled over the slots
+            g = e.args[0].generators[0]
+            view = self.view_of(g.iter)
+            if view is None or not isinstance(g.target, ast.Name):
+                raise Unsupported(ast.unparse(e)[:60])
+            q, off = view
+            terms = []
+            for j in range(off, self.QC):
+                saved = self.views.get(g.target.id)
+                self.views[g.target.id] = ('qelem', q, j)
+                try:
+                    ok = z3.And([j < S[q + '.len']] + [self.truth(self.ev(c, S)) for c in g.ifs])
+                    val = self.ev(e.args[0].elt, S)
+                finally:
+                    if saved is None:
+                        del self.views[g.target.id]
+                    else:
+                        self.views[g.target.id] = saved
+                terms.append((ok, val))
+            if e.func.id == 'sum':
+                out = IV(0)
+                for ok, val in terms:
+                    out = out + z3.If(ok, (z3.If(val, IV(1), IV(0)) if z3.is_bool(val) else val), IV(0))
+                return out
+            if e.func.id == 'any':
+                return z3.Or([z3.And(ok, self.truth(val)) for ok, val in terms] or [z3.BoolVal(False)])
+            return z3.And([z3.Implies(ok, self.truth(val)) for ok, val in terms] or [z3.BoolVal(True)])
+        if isinstance(e, ast.Call) and isinstance(e.func, ast.Name) and e.func.id == 'len' and len(e.args) == 1 and self.view_of(e.args[0]) is not None:
+            q, off = self.view_of(e.args[0])
+            return z3.If(S[q + '.len'] > off, S[q + '.len'] - off, IV(0))
+        if isinstance(e, ast.Call) and isinstance(e.func, ast.Name) and e.func.id in self.adapters and not e.keywords:
+            return self.ev_pure_adapter(e, S)
         if isinstance(e, ast.Call):   # pure queue / thread observers
             f = e.func
             if isinstance(f, ast.Attribute) and isinstance(f.value, ast.Name) and self.name(f.value.id) in self.p.threads and f.attr == 'is_alive':
@@ -375,11 +512,11 @@ class Compiler:
             and ((self.name(e.func.value.id) in self.p.sems and e.func.attr == 'acquire')
                  or (self.name(e.func.value.id) in self.p.events and e.func.attr == 'wait'))
 
-    def branch(self, test, k_true, k_false, ctx, L, label):
+    def branch(self, test, k_true, k_false, ctx, L, label, local=False):
         """entry location of `if test: goto k_true else: goto k_false`; a test that is a synchronisation call is evaluated first"""
         p, t = self.p, self.t
         if isinstance(test, ast.UnaryOp) and isinstance(test.op, ast.Not) and self.is_sync_call(test.operand):
-            return self.branch(test.operand, k_false, k_true, ctx, L, label)
+            return self.branch(test.operand, k_false, k_true, ctx, L, label, local)
         if self.is_sync_call(test):
             def cont(name, _k):
                 here = p.newloc(t, f'{label}-test@{L}')
@@ -388,9 +525,99 @@ class Compiler:
                 return here
             return self.flat_then(test, None, ctx, L, cont)
         here = p.newloc(t, f'{label}@{L}')
-        p.edge(t, here, k_true, guard=lambda S, e=test: self.ev(e, S), label=label + '-true', line=L)
-        p.edge(t, here, k_false, guard=lambda S, e=test: z3.Not(self.ev(e, S)), label=label + '-false', line=L)
+        p.edge(t, here, k_true, guard=lambda S, e=test: self.ev(e, S), label=label + '-true', line=L, local=local)
+        p.edge(t, here, k_false, guard=lambda S, e=test: z3.Not(self.ev(e, S)), label=label + '-false', line=L, local=local)
         return here
+
+    # ------------------------------------------------------------------ loops over the content of a queue
+    def queue_snapshot_spec(self, it):
+        """(queue, element name or None, [conditions]) for `list(q.queue)`, `q.queue`, `[v for v in q.queue if c(v)]`"""
+        if isinstance(it, ast.ListComp) and len(it.generators) == 1 and isinstance(it.generators[0].target, ast.Name) \
+                and isinstance(it.elt, ast.Name) and it.elt.id == it.generators[0].target.id:
+            v = self.view_of(it.generators[0].iter)
+            if v is not None and v[1] == 0:
+                return v[0], it.generators[0].target.id, list(it.generators[0].ifs)
+            return None
+        v = self.view_of(it)
+        if v is not None and v[1] == 0:
+            return v[0], None, []
+        return None
+
+    def for_over_queue(self, s, spec, k, ctx, L):
+        """for x in <snapshot of the content of a queue, optionally filtered>: the snapshot is taken in one step (list(...) / the
+        comprehension run in the consumer thread without a yield in between), then the body runs once per snapshot element"""
+        p, t = self.p, self.t
+        q, var, conds = spec
+        QC = self.QC
+        self.tmp += 1
+        snap = f'$snap{self.tmp}'
+        self.lst_declare(snap)
+        idx = self.newtmp()
+        tgt = self.name(s.target.id)
+        self.declare(tgt, 'int', NOITEM)
+        head = p.newloc(t, f'forq@{L}')
+        k_end = self.block(s.orelse, k, ctx) if s.orelse else k
+        ctx2 = Ctx(ctx.k_return, lambda: k, ctx.k_raise, ctx.k_return_value, lambda: head)
+        body = self.block(s.body, head, ctx2)
+        p.edge(t, head, body, guard=lambda S: S[idx] < S[snap + '.len'],
+               upd=lambda S: {tgt: self.lst_get(S, snap, S[idx]), idx: S[idx] + 1}, label='forq-item', line=L, local=True)
+        p.edge(t, head, k_end, guard=lambda S: S[idx] >= S[snap + '.len'], label='forq-end', line=L, local=True)
+
+        def take(S):
+            inc = []
+            for j in range(QC):
+                c = [j < S[q + '.len']]
+                if var is not None:
+                    saved = self.views.get(var)
+                    self.views[var] = ('qelem', q, j)
+                    try:
+                        c += [self.truth(self.ev(x, S)) for x in conds]
+                    finally:
+                        if saved is None:
+                            del self.views[var]
+                        else:
+                            self.views[var] = saved
+                inc.append(z3.And(c))
+            pos = []
+            acc = IV(0)
+            for j in range(QC):
+                pos.append(acc)
+                acc = acc + z3.If(inc[j], IV(1), IV(0))
+            u = {snap + '.len': acc, idx: IV(0)}
+            for slot in range(QC + 1):
+                val = S[f'{snap}[{slot}]']
+                for j in range(QC):
+                    val = z3.If(z3.And(inc[j], pos[j] == slot), S[f'{q}[{j}]'], val)
+                u[f'{snap}[{slot}]'] = val
+            return u
+        first = p.newloc(t, f'snapshot@{L}')
+        p.edge(t, first, head, upd=take, label=f'snapshot of {q}', line=L)
+        return first
+
+    # ------------------------------------------------------------------ assignment expressions in tests
+    @staticmethod
+    def split_walrus(test):
+        """(assignment statement, test without the walrus) if the test contains exactly one `name := <call>` that is evaluated before
+        anything else with an effect; None if there is no walrus"""
+        found = [n for n in ast.walk(test) if isinstance(n, ast.NamedExpr)]
+        if not found:
+            return None
+        if len(found) != 1 or not isinstance(found[0].target, ast.Name):
+            raise Unsupported('several assignment expressions in one test')
+        ne = found[0]
+        others = [n for n in ast.walk(test) if isinstance(n, ast.Call) and n is not ne.value and not any(n is m for m in ast.walk(ne.value))]
+        if others:
+            raise Unsupported('assignment expression next to other calls in a test')
+
+        class Rep(ast.NodeTransformer):
+            def visit_NamedExpr(self, node):
+                return ast.copy_location(ast.Name(id=node.target.id, ctx=ast.Load()), node)
+        import copy as _copy
+        new_test = Rep().visit(_copy.deepcopy(test))
+        assign = ast.copy_location(ast.Assign(targets=[ast.Name(id=ne.target.id, ctx=ast.Store())], value=ne.value), test)
+        ast.fix_missing_locations(assign)
+        ast.fix_missing_locations(new_test)
+        return assign, new_test
 
     # ------------------------------------------------------------------ statements
     def block(self, stmts, k, ctx):
@@ -429,10 +656,26 @@ class Compiler:
             return here
         if isinstance(s, ast.Expr) and isinstance(s.value, ast.Constant):
             return k        # docstring
+        if isinstance(s, (ast.If, ast.While)):
+            w = self.split_walrus(s.test)
+            if w is not None:
+                assign, new_test = w
+                if isinstance(s, ast.If):
+                    s2 = ast.copy_location(ast.If(test=new_test, body=s.body, orelse=s.orelse), s)
+                    s2._same_line = True          # the test continues the source line of the assignment: no line event of its own
+                    return self.block([assign, s2], k, ctx)
+                if s.orelse:
+                    raise Unsupported('while-else with an assignment expression')
+                # while (x := f()) <cmp> y: body   ==   while True: x = f(); if not (x <cmp> y): break; body
+                brk = ast.copy_location(ast.If(test=ast.UnaryOp(op=ast.Not(), operand=new_test), body=[ast.copy_location(ast.Break(), s)], orelse=[]), s)
+                brk._same_line = True
+                s2 = ast.copy_location(ast.While(test=ast.Constant(value=True), body=[assign, brk] + list(s.body), orelse=[]), s)
+                ast.fix_missing_locations(s2)
+                return self.stmt(s2, k, ctx)
         if isinstance(s, ast.If):
             a = self.block(s.body, k, ctx)
             b = self.block(s.orelse, k, ctx)
-            return self.branch(s.test, a, b, ctx, L, 'if')
+            return self.branch(s.test, a, b, ctx, L, 'if', local=getattr(s, '_same_line', False))
         if isinstance(s, ast.While):
             here = p.newloc(t, f'while@{L}')
             k_end = self.block(s.orelse, k, ctx) if s.orelse else k      # else: runs when the test fails, not after break
@@ -448,6 +691,9 @@ class Compiler:
             return here
         if isinstance(s, ast.For):
             it = s.iter
+            qsnap = self.queue_snapshot_spec(it)
+            if qsnap is not None and isinstance(s.target, ast.Name):
+                return self.for_over_queue(s, qsnap, k, ctx, L)
             if isinstance(it, ast.Call) and isinstance(it.func, ast.Name) and it.func.id == 'iter' and len(it.args) == 1 and not it.keywords:
                 it = it.args[0]           # for x in iter(source)
             if not (isinstance(it, ast.Name) and self.is_source(it.id) and isinstance(s.target, ast.Name)):
@@ -504,6 +750,19 @@ class Compiler:
                     ast.copy_location(x, s)
                     ast.fix_missing_locations(x)
                 return self.stmt(acq, self.try_(tr, k, ctx), ctx)
+            if isinstance(item.context_expr, ast.Call) and ast.unparse(item.context_expr.func) in ('contextlib.ExitStack', 'ExitStack') \
+                    and isinstance(item.optional_vars, ast.Name) and s.body:
+                # with ExitStack() as stack: x = stack.enter_context(CM); rest   ==   with CM as x: rest   (one context, entered first)
+                st, first = item.optional_vars.id, s.body[0]
+                uses = [n for b in s.body[1:] for n in ast.walk(b) if isinstance(n, ast.Name) and n.id == st]
+                if isinstance(first, ast.Assign) and len(first.targets) == 1 and isinstance(first.targets[0], ast.Name) and isinstance(first.value, ast.Call) \
+                        and ast.unparse(first.value.func) == f'{st}.enter_context' and len(first.value.args) == 1 and not uses:
+                    w2 = ast.With(items=[ast.withitem(context_expr=first.value.args[0], optional_vars=ast.Name(id=first.targets[0].id, ctx=ast.Store()))],
+                                  body=s.body[1:] or [ast.Pass()])
+                    ast.copy_location(w2, s)
+                    ast.fix_missing_locations(w2)
+                    return self.stmt(w2, k, ctx)
+                raise Unsupported('with ExitStack (only a single enter_context as the first statement is translated)')
             if not (isinstance(item.context_expr, ast.Call) and ast.unparse(item.context_expr.func) == 'PoolExecutor'
                     and isinstance(item.optional_vars, ast.Name)):
                 raise Unsupported('with ' + ast.unparse(item.context_expr)[:60])
@@ -610,6 +869,21 @@ class Compiler:
                 and isinstance(e.slice.upper, ast.UnaryOp) and isinstance(e.slice.upper.op, ast.USub) and isinstance(e.slice.upper.operand, ast.Constant):
             drop = e.slice.upper.operand.value
             e = e.value
+        if isinstance(e, ast.Call) and isinstance(e.func, ast.Name) and e.func.id in self.adapters and drop == 0:
+            # yield from <nested generator function>(names): its body is inlined; its yields are yields of the enclosing generator, a return
+            # ends the delegation, exceptions and GeneratorExit pass through its try blocks exactly as they would through the delegation
+            fd = self.adapters[e.func.id]
+            params = [a.arg for a in fd.args.args]
+            if fd.args.vararg or fd.args.kwarg or fd.args.kwonlyargs or fd.args.defaults or e.keywords or len(e.args) != len(params) \
+                    or any(not isinstance(a, ast.Name) for a in e.args):
+                raise Unsupported('yield from ' + ast.unparse(e)[:60])
+            old = self.subst
+            self.subst = dict(old)
+            self.subst.update({prm: self.name(a.id) for prm, a in zip(params, e.args)})
+            ctx2 = Ctx(lambda: k, _no_loop, ctx.k_raise, (lambda name: k), None)
+            entry = self.block(fd.body, k, ctx2)
+            self.subst = old
+            return entry
         if not (isinstance(e, ast.Name) and self.name(e.id) in self.lists):
             raise Unsupported('yield from ' + ast.unparse(e)[:40])
         lst = self.name(e.id)
@@ -780,6 +1054,30 @@ class Compiler:
                     return eval_args(i + 1)
                 return self.flat_then(a, None, ctx, L, lambda nm, _k: (names.append(nm), eval_args(i + 1))[1])
             return eval_args(0)
+        if isinstance(f, ast.Attribute) and f.attr == 'remove' and self.view_of(f.value) is not None and self.view_of(f.value)[1] == 0 \
+                and len(e.args) == 1 and isinstance(e.args[0], ast.Name) and not e.keywords:
+            # q.queue.remove(x): the first slot that holds x is taken out, the later ones move up
+            q = self.view_of(f.value)[0]
+            x = e.args[0]
+            QC = self.QC
+            here = p.newloc(t, f'{q}.queue.remove@{L}')
+
+            def upd(S):
+                xv = self.ev(x, S)
+                hit, seen = [], z3.BoolVal(False)
+                for j in range(QC):
+                    m = z3.And(j < S[q + '.len'], S[f'{q}[{j}]'] == xv, z3.Not(seen))
+                    hit.append(m)
+                    seen = z3.Or(seen, m)
+                u = {q + '.len': z3.If(seen, S[q + '.len'] - 1, S[q + '.len'])}
+                after = z3.BoolVal(False)
+                for j in range(QC):
+                    after = z3.Or(after, hit[j])
+                    nxt = S[f'{q}[{j + 1}]'] if j + 1 < QC else S[f'{q}[{j}]']
+                    u[f'{q}[{j}]'] = z3.If(after, nxt, S[f'{q}[{j}]'])
+                return u
+            p.edge(t, here, cont(None, k), upd=upd, label=f'{q}.queue.remove', line=L)
+            return here
         if isinstance(f, ast.Attribute):
             meth = f.attr
             objname = self.name(f.value.id) if isinstance(f.value, ast.Name) else None
